@@ -527,7 +527,9 @@ class _GenerateRenderMethod:
         if has_loop:
             self.printer.writeline("loop = __M_loop = runtime.LoopStack()")
 
-        for ident in to_write:
+        # names taken from the context first, then the callables: the
+        # argument defaults of a closure written here may read those names
+        for ident in sorted(to_write, key=lambda i: (i in comp_idents, i)):
             if ident in comp_idents:
                 comp = comp_idents[ident]
                 if comp.is_block:
